@@ -1037,9 +1037,11 @@ func engineReflectDiff(rep *Report) {
 				}
 				c.hist = append(c.hist, fmt.Sprintf("<start from value %x>", b))
 			}
-			for k := 0; k < steps && !c.dead; k++ {
-				c.randomStep()
-			}
+			guardCase(rep, "C08", "reflectdiff", tn, i, func() {
+				for k := 0; k < steps && !c.dead; k++ {
+					c.randomStep()
+				}
+			})
 			rep.Eval("C08", []byte(tn+"|"+strings.Join(c.hist, ";")), len(c.hist) > 0)
 			if i == 0 && ti < 2 {
 				h := c.hist
